@@ -16,17 +16,12 @@
 (* specification - and a refusal must name the refused parameter.  A guard   *)
 (* declaration naming a parameter that does not exist arrives as an          *)
 (* argument of kind "absent": Bind is then not enabled.                      *)
-EXTENDS Gate, IOUtils
+EXTENDS Gate, DimJson, IOUtils
 
 Traces == JsonDeserialize(IOEnv.TRACE_FILE)
 
 VARIABLES t, l
 tvars == <<vars, t, l>>
-
-DimFromSeq(s) == [b \in Base |->
-  LET i == CASE b = "L" -> 1 [] b = "M" -> 2 [] b = "T" -> 3 [] b = "I" -> 4
-             [] b = "K" -> 5 [] b = "N" -> 6 [] b = "J" -> 7 [] b = "A" -> 8
-  IN <<s[i][1], s[i][2]>>]
 
 RECURSIVE AbsArg(_)
 AbsArg(j) == CASE j.k = "seq" -> [k |-> "seq", items |-> [i \in DOMAIN j.items |-> AbsArg(j.items[i])]]
